@@ -272,6 +272,13 @@ def _validate(mod, kw):
     return lambda s: _chk.call(mod.validate, s, **kw)
 
 
+def _own_checksum(modname, o):
+    """the InvalidChecksum was raised by the module itself or by a generic algorithm it calls directly
+    (not by another number module such as a national IBAN validator or an embedded number)"""
+    own = _chk.relfile(modname)
+    return all(f == own for f in o[3]) if modname not in common.GENERIC_MODULES else True
+
+
 def complete(mod, projs, n):
     """apply every applicable generator in order; -> (completed string | None, verdicts)"""
     verdicts = []
@@ -449,7 +456,7 @@ def module_job(arg):
                 pool.append(comp)
         elif o[0] == 'verr' and o[1] == 'InvalidChecksum':
             nontrivial.add(('c', comp))
-            if not o[2].startswith(_chk.relfile(modname) + ':'):
+            if not _own_checksum(modname, o):
                 dist['c_rejected_checksum_other_module'] += 1
                 continue
             # every applicable generator agrees with the completed number, yet the module says checksum error
@@ -556,7 +563,7 @@ def replay(case):
         o = _chk.call(mod.validate, *args, **kwargs)
         v = args[0]
         if rel == 'c':
-            if o[:2] != ('verr', 'InvalidChecksum') or not o[2].startswith(_chk.relfile(case['module']) + ':'):
+            if o[:2] != ('verr', 'InvalidChecksum') or not _own_checksum(case['module'], o):
                 return None
             if not all(holds(mod, p, v) for p in case['projections'] if applies(p, v)):
                 return None
